@@ -95,11 +95,32 @@ func c20sRun(t *testing.T, sc c20sScenario, c *vsched.Chooser) (out vsched.Outco
 		}
 		switch sc.ctl {
 		case "unsub":
-			s.Go("ctl", func() { call := tick(); es.Unsubscribe(sub, "t"); ret := tick(); mu.Lock(); unsub = c20sIval{call, ret}; mu.Unlock() })
+			s.Go("ctl", func() {
+				call := tick()
+				es.Unsubscribe(sub, "t")
+				ret := tick()
+				mu.Lock()
+				unsub = c20sIval{call, ret}
+				mu.Unlock()
+			})
 		case "remove":
-			s.Go("ctl", func() { call := tick(); es.RemoveSubscriber(sub); ret := tick(); mu.Lock(); unsub = c20sIval{call, ret}; mu.Unlock() })
+			s.Go("ctl", func() {
+				call := tick()
+				es.RemoveSubscriber(sub)
+				ret := tick()
+				mu.Lock()
+				unsub = c20sIval{call, ret}
+				mu.Unlock()
+			})
 		case "late-sub":
-			s.Go("ctl", func() { call := tick(); es.Subscribe(sub, "t"); ret := tick(); mu.Lock(); subscribed = c20sIval{call, ret}; mu.Unlock() })
+			s.Go("ctl", func() {
+				call := tick()
+				es.Subscribe(sub, "t")
+				ret := tick()
+				mu.Lock()
+				subscribed = c20sIval{call, ret}
+				mu.Unlock()
+			})
 			subscribed = c20sIval{1 << 30, 1 << 30}
 		}
 		s.Start()
@@ -192,6 +213,69 @@ func c20sRun(t *testing.T, sc c20sScenario, c *vsched.Chooser) (out vsched.Outco
 	return out
 }
 
+// c20s2Run — two subscribers: subscriber A leaves the topic (Unsubscribe or RemoveSubscriber) while
+// subscriber B joins it, interleaved at every shimmed operation; afterwards (sequentially) one event
+// is published. B subscribed before the publish began and stayed active: it must receive the event
+// exactly once; A's unsubscribe completed before the publish began: it must not; the topic has
+// exactly one subscriber. Only one subscriber is on the topic when the event is published, so map
+// iteration order cannot influence the outcome.
+func c20s2Run(t *testing.T, remove bool, c *vsched.Chooser) (out vsched.Outcome) {
+	vsync.ResetPools()
+	p := vsched.Bubble(t, func() {
+		es := New()
+		a := es.AddSubscriber()
+		b := es.AddSubscriber()
+		es.Subscribe(a, "t")
+		s := vsched.New(c)
+		s.Go("leave", func() {
+			if remove {
+				es.RemoveSubscriber(a)
+			} else {
+				es.Unsubscribe(a, "t")
+			}
+		})
+		s.Go("join", func() { es.Subscribe(b, "t") })
+		s.Start()
+		s.Run()
+		s.Stop()
+		var v []vsched.Violation
+		if s.Wedged != "" {
+			out.Invalid = "wedged: " + s.Wedged
+			return
+		}
+		if s.Deadlock || s.Livelock {
+			v = append(v, vsched.Fail("stream-deadlock-or-livelock", "blocked: %v", s.Blocked))
+		}
+		for _, tp := range s.ThreadPanics {
+			v = append(v, vsched.Fail("stream-panic-in-thread", "%s", tp))
+		}
+		es.Publish("t", "e1")
+		drain := func(sub Subscriber) []any {
+			var got []any
+			for m := range sub.Iterator() {
+				got = append(got, m.Payload())
+			}
+			return got
+		}
+		gb, ga := drain(b), drain(a)
+		if len(gb) != 1 {
+			v = append(v, vsched.Fail("stream-event-lost-for-subscriber-that-joined-while-another-left", "B subscribed to the topic before the publish began and is active, but received %v (want [e1]); SubscribersCount=%d, B.Topics=%v", gb, es.SubscribersCount("t"), b.Topics()))
+		}
+		if len(ga) != 0 {
+			v = append(v, vsched.Fail("stream-event-delivered-to-unsubscribed", "A left the topic before the publish began but received %v", ga))
+		}
+		if n := es.SubscribersCount("t"); n != 1 {
+			v = append(v, vsched.Fail("stream-subscribers-count-wrong-after-concurrent-join-and-leave", "SubscribersCount(t)=%d after A left and B joined (want 1)", n))
+		}
+		out.Violations = v
+		out.Obs = fmt.Sprintf("b=%v a=%v n=%d", gb, ga, es.SubscribersCount("t"))
+	})
+	if p != nil {
+		out.Violations = append(out.Violations, vsched.Fail("stream-panic", "panic in execution: %v", p))
+	}
+	return out
+}
+
 func TestVerifC20Stream(t *testing.T) {
 	defer vsched.Finish(t)
 	vsched.Rep().Assumption("eventstream + internal/queue: sequentially consistent interleavings at shimmed sync/atomic/pool operations; one subscriber per topic under exploration (map iteration order over several subscribers is not owned)")
@@ -208,6 +292,17 @@ func TestVerifC20Stream(t *testing.T) {
 		all = append(all, vsched.Scenario{
 			Cfg: vsched.Config{Scenario: sc.name, Bound: sc.bound, Params: map[string]any{"pubs": sc.pubs, "drainers": sc.drainers, "drains": sc.drains, "ctl": sc.ctl}},
 			Run: func(c *vsched.Chooser) vsched.Outcome { return c20sRun(t, sc, c) },
+		})
+	}
+	for _, remove := range []bool{false, true} {
+		remove := remove
+		name := "stream/join-while-other-unsubscribes"
+		if remove {
+			name = "stream/join-while-other-is-removed"
+		}
+		all = append(all, vsched.Scenario{
+			Cfg: vsched.Config{Scenario: name, Bound: vsched.Pick(3, 4), Params: map[string]any{"subscribers": 2, "leave": map[bool]string{false: "Unsubscribe", true: "RemoveSubscriber"}[remove]}},
+			Run: func(c *vsched.Chooser) vsched.Outcome { return c20s2Run(t, remove, c) },
 		})
 	}
 	vsched.ExploreAll(all)
